@@ -142,6 +142,11 @@ impl AlcCodec for AlcRS2m {
             })
             .unwrap_or(8);
 
+        // m comes from the network (EXT_FTI or FDT), RFC 5510: 2 <= m <= 16
+        if m > 16 {
+            return Err(FluteError::new(format!("Wrong finite field size m={}", m)));
+        }
+
         let sbn = payload_id_header >> m;
         let esi_mask = (1u32 << m) - 1u32;
         let esi = payload_id_header & esi_mask;
